@@ -13,7 +13,7 @@
 (*   [k|->"t",n] [k|->"pass"] [k|->"break"] [k|->"continue"] [k|->"return",n] [k|->"ret0"]  *)
 (*   [k|->"raise",exc,n,cause] [k|->"reraise"] [k|->"assert",n]                             *)
 (*   [k|->"if",n,body,orelse] [k|->"while",n,body,orelse] [k|->"for",n,count,body,orelse]   *)
-(*   [k|->"try",body,handlers:<<[types,bind,n,body]>>,orelse,final]                           *)
+(*   [k|->"try",body,handlers:<<[types,bind,name,n,body]>>,orelse,final]                           *)
 (*   [k|->"with",items:<<[n,sup,er,xr,q]>>,body]   [k|->"call",f,n]                         *)
 (* Recording alphabet:                                                                      *)
 (*   [e"t",n] tracer | [e"c",n,v] condition site n evaluated to v | [e"it",n] iterator of   *)
@@ -41,7 +41,11 @@ IsSub(e, c) == \/ e = c
 W(k, cl) == [k |-> k, cl |-> cl]
 NoEv == [e |-> ""]
 
-St0 == [ok |-> TRUE, why |-> "", l |-> 1, o |-> 1, out |-> <<>>, want |-> NoEv, w |-> W("", ""), decs |-> <<>>]
+\* b1, unb: sticky facts about the run so far that delimit known deviations of the implementation (reported with a
+\* rejection, never used by the rules): an exception outside the Exception hierarchy has been raised; a handler's
+\* `as` name was already unbound when the handler ended (fine in Python).  bound = `as` names bound in this frame.
+St0 == [ok |-> TRUE, why |-> "", l |-> 1, o |-> 1, out |-> <<>>, want |-> NoEv, w |-> W("", ""), decs |-> <<>>,
+        b1 |-> FALSE, unb |-> FALSE, bound |-> {}]
 
 Fail(st, why, ev, w) == IF st.ok THEN [st EXCEPT !.ok = FALSE, !.why = why, !.want = ev, !.w = w] ELSE st
 
@@ -134,8 +138,11 @@ Handlers(env, hs, i, x, st, cx) ==
                        ELSE st1
                 \* inside the handler the handled exception is x; leaving the handler (any completion)
                 \* unbinds the name without any further effect
-                r   == Blk(env, hs[i].body, "handler", st2, [cx EXCEPT !.hx = x, !.p = Sub(env, cx, "h", i)])
-            IN r
+                st3 == IF hs[i].bind THEN [st2 EXCEPT !.bound = @ \cup {hs[i].name}] ELSE st2
+                r   == Blk(env, hs[i].body, "handler", st3, [cx EXCEPT !.hx = x, !.p = Sub(env, cx, "h", i)])
+            IN IF hs[i].bind
+               THEN R([r.st EXCEPT !.bound = @ \ {hs[i].name}, !.unb = @ \/ (r.st.ok /\ hs[i].name \notin r.st.bound)], r.c)
+               ELSE r
        ELSE Handlers(env, hs, i + 1, x, st, cx)
 
 \* context expression i, then its __enter__, then item i+1: returns [st, c, entered]
@@ -177,7 +184,7 @@ Stmt0(env, s, st, cx) ==
     [] s.k = "continue" -> R(Dec(st, "continue", IF cx.le THEN "in-loop-else" ELSE "in-loop-body"), Cont(cx.le))
     [] s.k = "return"   -> R(Dec(Emit(env, st, [e |-> "t", n |-> s.n], W("return", "value")), "return", "value"), Ret(s.n))
     [] s.k = "ret0"     -> R(Dec(st, "return", "none"), Ret(0))
-    [] s.k = "raise"    -> R(Dec5(st, "raise", "explicit", "", "", s.exc), Exc(X(s.exc, s.n, IF s.cause = "" THEN "None" ELSE s.cause)))
+    [] s.k = "raise"    -> R(Dec5([st EXCEPT !.b1 = @ \/ s.exc = "B1"], "raise", "explicit", "", "", s.exc), Exc(X(s.exc, s.n, IF s.cause = "" THEN "None" ELSE s.cause)))
     [] s.k = "reraise"  -> IF cx.hx.e = "" THEN R(Dec(st, "raise", "bare-no-active"), Exc(X("RE", 0, "None")))
                            ELSE R(Dec5(st, "raise", "bare", "", "", cx.hx.e), Exc(cx.hx))
     [] s.k = "assert"   -> LET t == Cond(env, st, s.n, W("assert", "test"))
@@ -205,7 +212,8 @@ Stmt0(env, s, st, cx) ==
                  IN ExitAll(env, s.items, Len(s.items), rb.st, rb.c, "", cx)
     [] s.k = "call" ->
          \* a new function: jumps do not cross it; a bare raise inside still sees the caller's handled exception
-         LET r == Blk(env, env.fs[s.f], "func", st, Cx(cx.hx, FALSE, Sub(env, cx, "f", s.f)))
+         LET r0 == Blk(env, env.fs[s.f], "func", [st EXCEPT !.bound = {}], Cx(cx.hx, FALSE, Sub(env, cx, "f", s.f)))
+             r  == R([r0.st EXCEPT !.bound = st.bound], r0.c)
          IN CASE r.c.k = "return" -> R(Emit(env, Dec(r.st, "call", "returns-value"), [e |-> "r", n |-> s.n, rv |-> r.c.v], W("call", "result")), Norm)
               [] r.c.k = "norm"   -> R(Emit(env, Dec(r.st, "call", "falls-off-end"), [e |-> "r", n |-> s.n, rv |-> 0], W("call", "result")), Norm)
               [] r.c.k = "raise"  -> r
@@ -225,10 +233,11 @@ Main(env, funcs) ==
 Accept(funcs, trace) ==
   LET env == [chk |-> TRUE, gh |-> FALSE, tr |-> trace, orc |-> <<>>, fs |-> funcs]
       st  == Main(env, funcs).st
-  IN IF ~st.ok THEN [ok |-> FALSE, why |-> st.why, at |-> st.l, want |-> st.want, w |-> st.w, decs |-> st.decs]
+  IN IF ~st.ok THEN [ok |-> FALSE, why |-> st.why, at |-> st.l, want |-> st.want, w |-> st.w, decs |-> st.decs, b1 |-> st.b1, unb |-> st.unb]
      ELSE IF st.l # Len(trace) + 1
-          THEN [ok |-> FALSE, why |-> "extra events", at |-> st.l, want |-> NoEv, w |-> W("function", "after-outcome"), decs |-> st.decs]
-     ELSE [ok |-> TRUE, why |-> "", at |-> st.l, want |-> NoEv, w |-> W("", ""), decs |-> <<>>]
+          THEN [ok |-> FALSE, why |-> "extra events", at |-> st.l, want |-> NoEv, w |-> W("function", "after-outcome"), decs |-> st.decs,
+                b1 |-> st.b1, unb |-> st.unb]
+     ELSE [ok |-> TRUE, why |-> "", at |-> st.l, want |-> NoEv, w |-> W("", ""), decs |-> <<>>, b1 |-> FALSE, unb |-> FALSE]
 
 \* ---------------------------------------------------------------- generator
 Run(funcs, orc, ghosts) ==
